@@ -120,7 +120,30 @@ ORCH = {
     "calc_sc": [("pandapower.shortcircuit.calc_sc", "calc_sc"), ("pandapower.shortcircuit.calc_sc", "_calc_sc"),
                 ("pandapower.shortcircuit.calc_sc", "_calc_sc_1ph"), ("pandapower.shortcircuit.ppc_conversion", "_init_ppc")],
     "run_contingency": [("pandapower.contingency.contingency", "run_contingency")],
+    "run_contingency_ls2g": [("pandapower.contingency.contingency", "run_contingency_ls2g")],
 }
+# stages that are not pandapower functions but at whose boundary the user's tables are in a temporarily changed state
+EXTRA_STAGES = {("pandapower.contingency.contingency", "run_contingency_ls2g"): ["init_ls2g", "ContingencyAnalysisCPP"]}
+
+
+def _net_ls2g():
+    """distributed slack with a participating generator that is not a slack, an ideal phase shifter: both are changed temporarily by run_contingency_ls2g"""
+    if "ls2g" not in _NET:
+        net = pp.create_empty_network()
+        b = [pp.create_bus(net, v) for v in (110., 110., 110., 20.)]
+        pp.create_ext_grid(net, b[0], slack_weight=1.0)
+        for f, t in ((0, 1), (1, 2), (2, 0)):
+            pp.create_line_from_parameters(net, b[f], b[t], 10., 0.1, 0.3, 10., 0.5)
+        pp.create_transformer_from_parameters(net, b[2], b[3], 40, 110, 20, 0.3, 12, 20, 0.05, tap_side="hv", tap_neutral=0, tap_min=-2, tap_max=2,
+                                              tap_step_degree=2., tap_step_percent=np.nan, tap_pos=1, tap_changer_type="Ideal")
+        pp.create_transformer_from_parameters(net, b[2], b[3], 40, 110, 20, 0.3, 12, 20, 0.05)
+        pp.create_gen(net, b[1], 5., vm_pu=1.01, slack_weight=1.0)
+        pp.create_gen(net, b[2], 3., vm_pu=1.0, slack_weight=0.0)
+        pp.create_load(net, b[3], 10., 2.)
+        net.line["max_loading_percent"] = 100.
+        net.trafo["max_loading_percent"] = 100.
+        _NET["ls2g"] = net
+    return _NET["ls2g"]
 
 
 RESTORE_ROUTINES = {"_remove_auxiliary_elements"}      # only called from exception handlers: a crash inside the restore itself is a second fault
@@ -147,7 +170,7 @@ def _stages(modname, fname):
 
 def make_fault(calc):
     def fn(ctx):
-        net = copy.deepcopy(_net())
+        net = copy.deepcopy(_net_ls2g() if calc == "run_contingency_ls2g" else _net())
         snap = _snapshot(net)
         w = ctx.var("fault_point", 0., 400.)
         kind = ctx.var("fault_kind", 0., float(len(FAULT_KINDS)))
@@ -170,6 +193,7 @@ def make_fault(calc):
         try:
             for modname, fname in ORCH[calc]:
                 mod, names = _stages(modname, fname)
+                names = names + [n_ for n_ in EXTRA_STAGES.get((modname, fname), []) if n_ in mod.__dict__]
                 for nm in names:
                     orig = mod.__dict__[nm]
                     if getattr(orig, "_c08_wrapped", False) or nm in RESTORE_ROUTINES:
@@ -197,6 +221,12 @@ def make_fault(calc):
                     net.gen["vn_kv"] = 110.; net.gen["xdss_pu"] = 0.2; net.gen["rdss_ohm"] = 0.1; net.gen["cos_phi"] = 0.9; net.gen["sn_mva"] = 10.
                     snap = _snapshot(net)
                     sys.modules["pandapower.shortcircuit.calc_sc"].calc_sc(net, fault="3ph", case="max")
+                elif calc == "run_contingency_ls2g":
+                    import warnings
+                    with warnings.catch_warnings():
+                        warnings.simplefilter("ignore")
+                        sys.modules["pandapower.contingency.contingency"].run_contingency_ls2g(
+                            net, {"line": {"index": [0, 1]}, "trafo": {"index": [1]}}, distributed_slack=True, numba=False)
                 elif calc == "run_contingency":
                     sys.modules["pandapower.contingency.contingency"].run_contingency(net, {"line": {"index": [0, 3]}, "trafo": {"index": [0]}},
                                                                                           raise_errors=True, numba=False)
@@ -261,7 +291,7 @@ def make_builders(mode):
 
 def instances(tier):
     out = []
-    calcs = ["runpp", "rundcpp", "runopp", "calc_sc", "run_contingency"] + (["rundcopp"] if tier == "thorough" else [])
+    calcs = ["runpp", "rundcpp", "runopp", "calc_sc", "run_contingency", "run_contingency_ls2g"] + (["rundcopp"] if tier == "thorough" else [])
     for c in calcs:
         out.append(Inst(f"fault_schedule_{c}", make_fault(c), nvars=5, samples=3, max_paths=4000, meta=dict(part="B", calculation=c)))
     out.append(Inst("builders_pf", make_builders("pf"), nvars=40, samples=2, meta=dict(part="A", mode="pf"), raises=(UserWarning,)))
